@@ -59,9 +59,25 @@ func Catalogue(prop, tier string) []Cfg {
 			add(pc("s1", []uint{2, 1}, 2, "fair", []int{2}, []int{2}, "", ""))
 		}
 	}
+	scripts := func() {
+		// v1 add / replace / remove / re-add scripts
+		c := pc("v1", []uint{2, 1}, 2, "fair", []int{1, 3}, []int{1, 3}, "rr", "")
+		c.Script, c.Ops = 1, []int{2} // remove the highest priority while its item is in flight
+		add(c)
+		c = pc("v1", []uint{2, 1}, 2, "fair", []int{1}, []int{1}, "rr", "")
+		c.Script, c.Ops = 2, []int{1, 2, 3, 4}
+		add(c)
+		c = pc("v1", []uint{2, 1}, 3, "fair", []int{2, 1}, []int{2, 1}, "rr", "preclosed")
+		c.Script = 2
+		add(c)
+		c = pc("v1", []uint{2, 1}, 3, "fair", []int{1}, []int{1}, "pool", "")
+		c.Script, c.Ops = 2, []int{0, 1, 3}
+		add(c)
+	}
 	switch prop {
 	case "C01", "C02", "C07", "C19":
 		prioCore()
+		scripts()
 	case "C05":
 		sat := func(disc string, p []uint, h uint, div string, r int, env string) {
 			for !accepted(p, h, div) {
@@ -118,6 +134,11 @@ func Catalogue(prop, tier string) []Cfg {
 			c = pc(d, []uint{2, 1}, 3, "rate", []int{1, 4}, []int{0, 4}, "rr", "alone")
 			add(c)
 		}
+		// an input that stays open and silent must not starve the others
+		add(pc("v2", []uint{2, 1}, 2, "fair", []int{0, 0}, []int{0, 2}, "rr", "idleopen"))
+		add(pc("v2", []uint{2, 1}, 2, "fair", []int{0, 2}, []int{0, 3}, "rr", "idleopen"))
+		add(pc("v2", []uint{2, 1}, 3, "rate", []int{2, 0}, []int{2, 0}, "pool", "idleopen"))
+		add(pc("v1", []uint{2, 1}, 2, "fair", []int{0, 0}, []int{0, 2}, "rr", "idleopen"))
 		// stingy: the releaser may stop for good at any time
 		add(pc("v2", []uint{2, 1}, 2, "fair", []int{3}, []int{3}, "rr", "stingy"))
 		add(pc("v2", []uint{2, 1}, 3, "rate", []int{0, 3}, []int{2, 3}, "rr", "stingy"))
@@ -159,6 +180,7 @@ func Catalogue(prop, tier string) []Cfg {
 			add(c)
 		}
 	case "C17":
+		scripts()
 		for _, env := range []string{"rr"} {
 			c := pc("v1", []uint{2, 1}, 3, "fair", []int{2}, []int{2}, env, "")
 			c.Script = 2
@@ -411,6 +433,19 @@ func Catalogue(prop, tier string) []Cfg {
 						add(c)
 					}
 				}
+			}
+			// timed: timeouts fire while the consumer is slow / the output buffer is full
+			for _, nocopy := range []bool{false, true} {
+				c := Cfg{Harness: "join", Disc: disc, J: 3, NoCopy: nocopy, Cap: []int{0}, N: []int{5}, Timeout: 4, Inacc: 25, Pauses: []int64{0, 5}, Delays: []int64{0, 9}, Bound: -1}
+				if disc == "unite2" {
+					c.Lens = []int{1, 2}
+				}
+				add(c)
+				c = Cfg{Harness: "join", Disc: disc, J: 2, NoCopy: nocopy, Cap: []int{1}, N: []int{4}, Timeout: 3, Inacc: 100, Pauses: []int64{0, 2, 4}, Delays: []int64{0, 7}, Bound: -1}
+				if disc == "unite2" {
+					c.Lens = []int{0, 1, 3}
+				}
+				add(c)
 			}
 		}
 	}
